@@ -1328,6 +1328,12 @@ class Engine:
             e.value = v
             self._raise_point(e, s, ch, node)
             if v[0] == "coro":
+                # `await f(...)`: the call that merely created the coroutine object is replaced by
+                # the awaited (synchronously spliced) call
+                for i in range(len(s.events) - 1, -1, -1):
+                    if s.events[i].kind == "call" and s.events[i].coro and s.events[i].result == v:
+                        del s.events[i]
+                        break
                 return self._call_function(v[1], v[2], v[3], v[4], node, s, fi, depth, ch, awaited=True)
             return ("await", v)
         if isinstance(node, ast.Lambda):
@@ -1639,7 +1645,7 @@ class Engine:
         self._raise_point(e, s, ch, node)
         res = ("call", f, args, kwargs, site)
         e.result = res
-        return res
+        return ("await", res) if awaited else res
 
     def _looks_internal(self, f) -> bool:
         return False
